@@ -116,7 +116,7 @@ def rand_history(rng):
 
 def gen(rng, tier):
     cases = []
-    count = 500 if tier == "quick" else 20000
+    count = 500 if tier == "quick" else 150000
     for k in range(count):
         cases.append(("todos", "t%d" % k, rand_history(rng)))
     if tier == "thorough":
@@ -128,7 +128,7 @@ def gen(rng, tier):
             alphabet.append("cancel %d" % i)
         alphabet += ["clock %d" % t for t in times] + ["step 0", "step 1", "step -1"]
         k = 0
-        for L in range(1, 5):
+        for L in range(1, 6):
             for h in itertools.product(alphabet, repeat=L):
                 if not any(o.startswith("step") for o in h):
                     continue
